@@ -38,6 +38,11 @@ CLAIMED = {
    technique="deterministic simulation of operation histories against a reference model (plain vector) with lock-step sparse/dense replicas",
    text="Seeded histories over Sparse_Row / Dense_Row / vector triples and DENSE / SPARSE Linear_Expression pairs: after every step all replicas agree index by index, iteration is strictly increasing and skips no non-zero entry, returned iterators point at the requested index, OK() holds, and queries agree across representations. No clock, schedule or fault is involved; the simulator chooses histories and sizes across the tree's rebalancing thresholds.",
    note="Constraint/Generator/Congruence systems built in both representations are not covered yet; the ASan batch makes out-of-bounds accesses inside the tree visible."),
+ "C20": dict(
+   category="exploration", design_ref="DESIGN.md §4 C20, §9.6",
+   technique="deterministic simulation of call sequences over the C interface regenerated from the current tree (one generated thunk per entry point), with fault injection in forked branches: k-th allocation fails inside the entry point, simulated ppl_set_timeout expiry, deterministic (weight) timeout, failing and short in-memory streams; LeakSanitizer reachability as leak oracle",
+   text="Seeded search over call sequences and argument values (valid, wrong-dimension, huge-dimension, aliased, null-optional, garbage streams). Judged for every call without per-function knowledge: no C++ exception crosses the boundary, the return value is non-negative or a documented error code, the registered handler runs exactly once with that code iff the call failed, output handles are written iff the call succeeded, handles passed as const denote the same value afterwards, every handle is deletable exactly once, nothing is unreachable at teardown; with an injected fault the documented code (PPL_ERROR_OUT_OF_MEMORY, PPL_TIMEOUT_EXCEPTION) is returned, the timeout can be reset and the call repeated, and all handles remain deletable. A clean batch is evidence, not proof.",
+   note="Generic wrapper laws, not result-by-result comparison with the C++ operation (the C++ operations themselves are covered by C01-C15 on the same library objects). 1812 of 1986 prototypes have thunks; iterators, PIP tree views and protocol functions are excluded from random calls (listed by tools/gen_capi_thunks.py). Three leaks inside gmpxx are listed as known findings."),
  "C04": dict(
    category="exploration", design_ref="DESIGN.md §4 C04",
    technique="deterministic simulation of operation histories over rational BD shapes, octagons and boxes; refinement against an eager twin plus pointwise evaluation of each operator's definition",
